@@ -14,8 +14,8 @@
    while grouping by endpoint / by consumer+endpoint) and the convergence flag
    common.NormalizeTree returned.  Nothing is assumed about them.
 
-   The model describes the code WITH patches/C15/fix-C15c.patch and
-   fix-C15d.patch applied: common.NormalizeTree only logs a URL the tree
+   The model describes the code WITH patches/C15/fix-C15c.patch,
+   fix-C15d.patch and fix-F-C15e.patch applied (the last one: [sanitize] below): common.NormalizeTree only logs a URL the tree
    refuses (the unpatched code returned the error and discovery.Run dropped the
    whole batch), and a persisted key is split at its FIRST ":::" only
    (strings.SplitN; the unpatched strings.Split truncated a URL containing
@@ -33,6 +33,7 @@
    - a persisted timestamp (layout 2006-01-02T15:04:05Z) is the whole second
      it denotes. *)
 From Coq Require Import List ZArith Bool Uint63.
+From Verif Require Import C15.Utf8.
 Import ListNotations.
 Open Scope Z_scope.
 
@@ -306,6 +307,23 @@ Definition step (s : state) (b : batch) : state :=
 Definition run_from (s : state) (bs : list batch) : state := fold_left step bs s.
 Definition run (bs : list batch) : state := run_from empty_state bs.
 
+(* Records as they enter discovery.Run (filterOutInternalRecords,
+   withValidUTF8Keys — patches/C15/fix-F-C15e.patch): the four fields that name
+   an aggregate are made valid UTF-8 (strings.ToValidUTF8(s, "\uFFFD"), Utf8.v)
+   before anything looks at them — the URL tree included, so the oracle is asked
+   about sanitised URLs only.  The code does it for the non-internal records;
+   the internal ones are dropped anyway.  [run] is the pipeline on records that
+   have passed this point, [run_entry] the pipeline on records as logged. *)
+Definition sanitize (r : rec) : rec :=
+  mkRec (to_valid_utf8 (r_method r)) (to_valid_utf8 (r_url r)) (r_status r) (r_dur r) (r_tdur r)
+        (r_ts r) (to_valid_utf8 (r_cons r)) (to_valid_utf8 (r_icpt r)) (r_internal r).
+
+Definition sanitize_batch (b : batch) : batch :=
+  mkBatch (map sanitize (b_recs b)) (b_restart b) (b_conv b)
+          (b_rkE b) (b_rkC b) (b_nxE b) (b_nxC b).
+
+Definition run_entry (bs : list batch) : state := run (map sanitize_batch bs).
+
 (* ---------------------------------------------------------------------- *)
 (* Correspondence entry point.
 
@@ -344,9 +362,10 @@ Fixpoint tbl_get (t : tbl) (u : str) : str :=
   end.
 Definition ztbl (t : itbl) : tbl := map (fun p => (zs (fst p), zs (snd p))) t.
 
+(* a record of a case is a record as logged: it passes [sanitize] *)
 Definition rec_of (c : crec) : rec :=
   let '(m, u, st, d, td, ts, cs, ic, it) := c in
-  mkRec (zs m) (zs u) (zi st) (zi d) (zi td) (zi ts) (zs cs) (zs ic) it.
+  sanitize (mkRec (zs m) (zs u) (zi st) (zi d) (zi td) (zi ts) (zs cs) (zs ic) it).
 
 Fixpoint batches_of (rs : list rec) (bs : list cbatch) : list batch :=
   match bs with
